@@ -346,7 +346,7 @@ func (cp CFGPath) canon(v ssa.Value, depth int) string {
 	case *ssa.Extract:
 		return cp.canon(x.Tuple, depth+1) + "#" + itoa(x.Index)
 	}
-	return v.Name() + "@" + v.Parent().Name()
+	return N(v) + "@" + N(v.Parent())
 }
 
 // TruthOf reports the recorded truth of a condition equal (after Deref of its
